@@ -877,6 +877,14 @@ def getattr_(I, o, name):
     h = getattr(o, "__vf_getattr__", None)
     if h is not None:
         return h(I, name)
+    if isinstance(o, Builtin) and o.name == "dict" and name == "fromkeys":
+        def fromkeys(keys, value=None):
+            # order-preserving de-duplication (dict insertion order), keys compared as dict keys are
+            d = {}
+            for k in iterate(I, keys):
+                d.setdefault(canon_key(d.keys(), k), value)
+            return d
+        return Builtin("dict.fromkeys", fromkeys)
     if isinstance(o, FuncVal) and name == "__annotations__":
         # the annotations of a function of the repo, evaluated in its module: classes become class values, anything the
         # subset cannot evaluate (Protocol types, unions, strings) becomes an opaque marker
@@ -1384,7 +1392,7 @@ def make_builtins(I):
             (a.dotted, b.dotted) in {("numpy.float64", "numpy.floating"), ("numpy.int64", "numpy.integer"), ("numpy.complex128", "numpy.complexfloating")}
             if isinstance(a, ExternalVal) and isinstance(b, ExternalVal) else False),
         "map": lambda f, *xs: [I.call(f, list(a), {}) for a in zip(*[iterate(I, x) for x in xs])],
-        "hash": lambda o: id(o), "complex": lambda *a: complex(*a),
+        "hash": lambda o: id(o), "complex": lambda *a: complex(*a), "slice": lambda *a: slice(*a),
         "filter": lambda f, xs: [x for x in iterate(I, xs) if I.decide(I.call(f, [x], {}) if f is not None else x)],
     }
     out = {k: Builtin(k, v) for k, v in tab.items()}
